@@ -941,3 +941,11 @@ EX = "atomica/excel.py"
 mutant("C18-M35", "C18", "R18g", "next table placed by the number of target populations (seeded C18h)", EX, "TimeDependentConnections._write_pop_matrix", "next_row = start_row + 1 + len(self.from_pops) + 1", "next_row = start_row + 1 + len(self.to_pops) + 1")
 twin("C18-T8", "C18", "next row computed in two steps", EX, "TimeDependentConnections._write_pop_matrix", "        next_row = start_row + 1 + len(self.from_pops) + 1", "        next_row = start_row + len(self.from_pops) + 2")
 mutant("C16-M50", "C16", "R16s", "transitions sheet rebuilt from the Parameters sheet (seeded C16h)", FW, "ProjectFramework.to_spreadsheet", "for par, pairs in self.transitions.items():", "for par, pairs in [(p, self.transitions[p]) for p in self.pars.index if p in self.transitions]:")
+mutant("C05-M40", "C05", "R05n", "upstream walk takes the target end of the in-edges", FW, "ProjectFramework._assign_junction_duration_groups", 'items = [(x[0], x[2]["par"]) for x in edges]', 'items = [(x[1], x[2]["par"]) for x in edges]')
+mutant("C05-M41", "C05", "R05n", "downstream walk uses the in-edges", FW, "ProjectFramework._assign_junction_duration_groups", "edges = G.out_edges(comp_name, data=True)", "edges = G.in_edges(comp_name, data=True)")
+mutant("C05-M42", "C05", "R05n", "junction neighbours treated as ordinary compartments", FW, "ProjectFramework._assign_junction_duration_groups", 'elif self.comps.at[comp, "is junction"] == "y":', 'elif self.comps.at[comp, "is junction"] != "y":')
+mutant("C05-M43", "C05", "R05n", "groups recorded only when missing", FW, "ProjectFramework._assign_junction_duration_groups", "                            if group is not None:\n                                groups.add(group)", "                            if group is None:\n                                groups.add(group)")
+twin("C05-T11", "C05", "direction tested with the downstream branch first", FW, "ProjectFramework._assign_junction_duration_groups", '                    if direction == "upstream":\n                        edges = G.in_edges(comp_name, data=True)\n                        items = [(x[0], x[2]["par"]) for x in edges]\n                    elif direction == "downstream":\n                        edges = G.out_edges(comp_name, data=True)\n                        items = [(x[1], x[2]["par"]) for x in edges]', '                    if direction == "upstream":\n                        edges = G.in_edges(comp_name, data=True)\n                        items = [(e[0], e[2]["par"]) for e in edges]\n                    elif direction == "downstream":\n                        edges = G.out_edges(comp_name, data=True)\n                        items = [(e[1], e[2]["par"]) for e in edges]')
+mutant("C20-M27", "C20", "R20l", "nested characteristics not expanded in a cascade stage", FW, "ProjectFramework.get_charac_includes", "                expanded += self.get_charac_includes(components)", "                pass")
+mutant("C20-M28", "C20", "R20l", "compartments dropped from the expansion", FW, "ProjectFramework.get_charac_includes", "                expanded.append(str(include))  # Use 'str()' to get `'sus'` in the error message instead of  `u'sus'`", "                pass")
+mutant("C20-M29", "C20", "R20l", "characteristic test inverted", FW, "ProjectFramework.get_charac_includes", "if include in self.characs.index:", "if include not in self.characs.index:")
